@@ -180,10 +180,11 @@ def s4_s5(ctx, rep):
     # the NaN-filtered list: a local every element of which enters under "not NaN" - as the `if` of a comprehension or as the guard of
     # an append in a loop over the rung
     from .common import inclusion_sites
+    from ..engine import deref as _dr
     valid = None
     for name in sorted({x.id for x in ast.walk(f.node) if isinstance(x, ast.Name)}):
         sites_ = inclusion_sites(ctx, f, name)
-        if sites_ and all(any(a[0] == "truth" and "isnan" in a[1] and a[2] is False for a in at) and any(U(it) == f.params[0] for it in its)
+        if sites_ and all(any(a[0] == "truth" and "isnan" in a[1] and a[2] is False for a in at) and any(f.params[0] in {y.id for y in ast.walk(_dr(f, it)) if isinstance(y, ast.Name)} for it in its)
                           for _, _, at, its in sites_) and len([d for d in local_defs(f, name) if not isinstance(d, tuple)]) == 1:
             valid = name
     if valid is None:
